@@ -343,11 +343,15 @@ _TEXT = {
            "in that invocation; conflicting entries must fail the run and stay untouched.",
     "C06": "Invariant 'every row has a complete directory, produced by an execution that exited 0, with HEAD's "
            "commit and dirty flag' evaluated after every operation and after a process kill at enumerated "
-           "syscall-adjacent instants (fork + os._exit) of run / restore / archive / gc.",
+           "syscall-adjacent instants (fork + os._exit) of run / restore / archive / gc, and after SIGINT / SIGTERM at "
+           "enumerated interpreter check points of run (the abort path executes clean-up code a kill never runs).",
     "C12": "All-or-nothing of restore evaluated for every corruption kind and after a process kill at enumerated "
            "instants of the restore; existing version directories must stay byte-identical.",
-    "C16": "SIGINT / SIGTERM delivered at enumerated interpreter check points of `cond run`; every process running "
-           "at that moment must end up SIGTERMed (or gone), nothing unfinished recorded, exit through the abort path.",
+    "C16": "SIGINT / SIGTERM delivered at enumerated interpreter check points of `cond run` (in a third of the scenarios "
+           "followed by a second signal 1-250 check points later; also while the main thread is blocked on its own "
+           "stalled stdout); every process running at that moment must end up SIGTERMed (or gone), nothing unfinished "
+           "recorded, exit through the abort path (or death by the signal once the command has put the default "
+           "dispositions back).",
 }
 for _pid, _t in _TEXT.items():
     if _pid in PROPS:
